@@ -289,8 +289,9 @@ impl OtlpBuilder {
 
             // Process batches from each signal independently
             // This ensures one signal becoming unavailable doesn't
-            // block the others
-            let _ = processors.into_future().await;
+            // block the others. Wait for every signal to finish, so one
+            // completing early doesn't abandon batches still queued on the others
+            processors.collect::<()>().await;
         };
 
         // Spawn a background thread to process batches
